@@ -217,6 +217,37 @@ def _atom(ctx, e, valuation, objname):
     return ("raw", e)
 
 
+def stream_param(fn_node):
+    """which of a dumper's two parameters is the output list: the one `.append`/`.extend` is called on, or that is handed on as
+    such; by default the second (the order on the reference tree)"""
+    prm = A.params(fn_node)
+    if len(prm) != 2:
+        return prm[-1] if prm else None
+    for n in ast.walk(fn_node):
+        if isinstance(n, ast.Call) and isinstance(n.func, ast.Attribute) and n.func.attr in ("append", "extend") and \
+                isinstance(n.func.value, ast.Name) and n.func.value.id in prm:
+            return n.func.value.id
+    return prm[1]
+
+
+def obj_param(fn_node):
+    prm = A.params(fn_node)
+    sp = stream_param(fn_node)
+    others = [p_ for p_ in prm if p_ != sp]
+    return others[0] if others else prm[0]
+
+
+def _obj_arg(call, prm_stream):
+    """the value argument of a two-argument dumper call `f(value, stream)` / `f(stream, value)`"""
+    if len(call.args) != 2:
+        return None
+    if A.dotted(call.args[1]) == prm_stream:
+        return call.args[0]
+    if A.dotted(call.args[0]) == prm_stream:
+        return call.args[1]
+    return None
+
+
 class DumpExec:
     def __init__(self, ctx):
         self.ctx = ctx
@@ -228,9 +259,9 @@ class DumpExec:
             raise AnalysisError("dumper %s does not take (obj, stream)" % func.qual)
         env = {}
         if arg_expr is not None:
-            env[prm[0]] = arg_expr
-        self.objname = prm[0] if arg_expr is None else getattr(self, "objname", prm[0])
-        self.stream = prm[1]
+            env[obj_param(func.node)] = arg_expr
+        self.objname = obj_param(func.node) if arg_expr is None else getattr(self, "objname", obj_param(func.node))
+        self.stream = stream_param(func.node)
         paths = self.block(func.node.body, [(DumpPath(), env)], func, depth)
         return [p for p, e in paths]
 
@@ -246,7 +277,7 @@ class DumpExec:
         return states
 
     def stmt(self, st, p, env, func, depth):
-        prm_stream = A.params(func.node)[1]
+        prm_stream = stream_param(func.node)
         if isinstance(st, ast.Expr) and isinstance(st.value, ast.Constant):
             return [(p, env)]
         if isinstance(st, ast.Pass):
@@ -294,15 +325,15 @@ class DumpExec:
                             x._module = st._module
                     states = [r for (p2, e2) in states for r in self.stmt(ap, p2, e2, func, depth)]
                 return states
-            if d == "_dump" and len(c.args) == 2:
+            if d == "_dump" and len(c.args) == 2 and _obj_arg(c, prm_stream) is not None:
                 p = p.clone()
-                p.raw.append(("child", subst(c.args[0], env), st))
+                p.raw.append(("child", subst(_obj_arg(c, prm_stream), env), st))
                 p.nodes.append(st)
                 return [(p, env)]
             # the registered dumper of an exact type called directly on a value that is exactly of that type (a tuple display or
             # tuple(...)): the same bytes as going through the type dispatch
-            if d and len(c.args) == 2 and A.dotted(c.args[1]) == prm_stream:
-                arg0 = subst(c.args[0], env)
+            if d and _obj_arg(c, prm_stream) is not None:
+                arg0 = subst(_obj_arg(c, prm_stream), env)
                 exact = tuple if isinstance(arg0, ast.Tuple) or (isinstance(arg0, ast.Call) and A.call_name(arg0) == "tuple") else None
                 if exact is not None:
                     regs = registry_functions(self.ctx, "_dump_registry")
@@ -313,12 +344,12 @@ class DumpExec:
                         p.nodes.append(st)
                         return [(p, env)]
             # delegation to another dumper: inline it
-            if d and len(c.args) == 2 and A.dotted(c.args[1]) == prm_stream:
+            if d and _obj_arg(c, prm_stream) is not None:
                 r = self.ctx.repo.resolve_name(self.mod, d)
                 if r and r[0] == "func" and depth < 3:
                     sub = DumpExec(self.ctx)
                     sub.objname = self.objname
-                    inner = sub.run(r[1], subst(c.args[0], env), depth + 1)
+                    inner = sub.run(r[1], subst(_obj_arg(c, prm_stream), env), depth + 1)
                     out = []
                     for ip in inner:
                         q = p.clone()
@@ -333,8 +364,8 @@ class DumpExec:
             # for item in X: _dump(item, stream)
             if len(st.body) == 1 and isinstance(st.body[0], ast.Expr) and isinstance(st.body[0].value, ast.Call):
                 c = st.body[0].value
-                if A.call_name(c) == "_dump" and len(c.args) == 2 and isinstance(c.args[0], ast.Name) \
-                        and c.args[0].id == st.target.id:
+                if A.call_name(c) == "_dump" and isinstance(_obj_arg(c, prm_stream), ast.Name) \
+                        and _obj_arg(c, prm_stream).id == st.target.id:
                     p = p.clone()
                     p.raw.append(("children", subst(st.iter, env), st))
                     p.nodes.append(st)
@@ -362,7 +393,7 @@ class DumpExec:
         h = st.handlers[0]
         b = st.body[0]
         prm = A.params(func.node)
-        if not (isinstance(b, ast.Expr) and isinstance(b.value, ast.Call) and A.call_name(b.value) == prm[1] + ".append" and
+        if not (isinstance(b, ast.Expr) and isinstance(b.value, ast.Call) and A.call_name(b.value) == stream_param(func.node) + ".append" and
                 len(b.value.args) == 1 and isinstance(b.value.args[0], ast.Subscript) and h.name is None):
             return None
         sub = subst(b.value.args[0], env)
